@@ -547,7 +547,8 @@ PROPS.update({
                                  'DX.core_error_single', 'DX.deterministic', 'DX.struct_entry_nonempty', 'DX.enum_entry_nonempty',
                                  'DX.entry_answered', 'DX.cmp_render_nonempty', 'DX.ops_render_nonempty',
                                  'DX.attr_is_item_then_core_struct', 'DX.attr_is_item_then_core_enum']),
-                  (CMP + 'C16Bal', ['DX.attr_output_balanced', 'DX.derive_output_balanced', 'DX.bal_iff', 'DX.scan_append'])],
+                  (CMP + 'C16Bal', ['DX.attr_output_balanced', 'DX.derive_output_balanced', 'DX.bal_iff', 'DX.scan_append',
+                                    'DX.starts_genImpl', 'DX.starts_fwd', 'DX.entry_items_start_like_items'])],
         l1=[('wild', 5000, 200000), ('strip', 2000, 50000), ('impl', 2000, 50000), ('cmpWild', 2000, 50000), ('other', 500, 5000)],
         labels=r'.',
         kinds=('panic', 'nondet', 'parse', 'roundtrip'),
